@@ -7,9 +7,9 @@ import LopdfModel.Model.Basic
   compares it with flate2 on every well-formed stream it produces (all compression levels).
 
   Scope: `zlibInflate` answers `some out` exactly for a COMPLETE stream: valid header (CM = 8,
-  window ≤ 32 K, no preset dictionary, FCHECK), blocks up to the final one. The Adler-32 trailer is
-  NOT required (lopdf ignores what flate2 reports after the data has been produced — "an error is
-  only logged; what was read stays in the buffer"). Anything else is `none`: how much output
+  window ≤ 32 K, no preset dictionary, FCHECK), blocks up to the final one. An Adler-32 trailer that is present must be right
+  (flate2 reports a wrong one together with the last output, which is then lost); a missing or cut trailer is
+  tolerated (lopdf ignores what flate2 reports after the data has been produced). Anything else is `none`: how much output
   flate2 has produced when it meets damaged data is its own business and is not specified here.
 
   Bits are consumed least-significant first (RFC 1951 §3.1.1); the input is the list of bits.
@@ -257,19 +257,30 @@ def inflateRaw (data : Bytes) : Option (Bytes × List Bool) :=
   let bs := bitsOf data
   (blocks (bs.length + 1) bs #[]).map fun (o, r) => (o.toList, r)
 
-/-- zlib (RFC 1950): header, DEFLATE data; the Adler-32 trailer is not examined -/
+def adlerStep (p : Nat × Nat) (x : UInt8) : Nat × Nat :=
+  ((p.1 + x.toNat) % 65521, (p.2 + (p.1 + x.toNat) % 65521) % 65521)
+
+def adler32 (data : Bytes) : Nat := (data.foldl adlerStep (1, 0)).2 * 65536 + (data.foldl adlerStep (1, 0)).1
+
+/-- zlib (RFC 1950): header, DEFLATE data, Adler-32. A trailer that is PRESENT (four bytes) must match: flate2 reports
+the mismatch from the very call that produced the last output, which `read_to_end` then drops (nothing is lost
+when there is no output). A trailer that is
+missing or cut short leaves the data complete (the error comes from a later call). -/
 def zlibInflate (data : Bytes) : Option Bytes :=
   match data with
   | cmf :: flg :: rest =>
     if cmf &&& 15 ≠ 8 ∨ cmf >>> 4 > 7 ∨ (cmf.toNat * 256 + flg.toNat) % 31 ≠ 0 ∨ flg &&& 32 ≠ 0 then none
-    else (inflateRaw rest).map (·.1)
+    else
+      match inflateRaw rest with
+      | none => none
+      | some (out, r) =>
+        match readBytes 4 (alignDrop r) with
+        | some ([a, b, c, d], _) =>
+          if a.toNat * 16777216 + b.toNat * 65536 + c.toNat * 256 + d.toNat = adler32 out ∨ out = [] then some out else none
+        | _ => some out
   | _ => none
 
 /-! ### a reference encoder: stored blocks only (RFC 1951 §3.2.4), for the round-trip theorem -/
-
-def adler32 (data : Bytes) : Nat :=
-  let (a, b) := data.foldl (fun (p : Nat × Nat) (x : UInt8) => let a := (p.1 + x.toNat) % 65521; (a, (p.2 + a) % 65521)) (1, 0)
-  b * 65536 + a
 
 def le16 (n : Nat) : Bytes := [UInt8.ofNat (n % 256), UInt8.ofNat (n / 256 % 256)]
 
